@@ -316,6 +316,68 @@ func run(e *core.Env) {
 			raw = append(raw, tp.Bytes(apx)...)
 			how := fmt.Sprintf("parse(type=%d sb=%d msg=%d apx=%d)", mt, sb, msg, apx)
 			hist = append(hist, how)
+			if tp.Chance(1, 6) && len(raw) < 30000 {
+				// Two frames back to back in a plain buffer of the caller (no pooled slice is
+				// handed to the parser; the buffer's capacity is now and then exactly a pool tier):
+				// releasing the first must leave the second and the caller's buffer alone, and the
+				// buffer stays the caller's - no later frame may be built on it.
+				how = "two frames in one plain buffer: " + how
+				hist[len(hist)-1] = how
+				raw2 := append([]byte(nil), raw...)
+				copy(raw2[4+1:16], tp.Bytes(11))
+				size := 2*len(raw) + tp.Intn(64)
+				if tp.Chance(1, 2) {
+					for _, t := range tiers {
+						if t >= 2*len(raw) {
+							size = t
+							break
+						}
+					}
+				}
+				buf := make([]byte, size)
+				copy(buf, raw)
+				copy(buf[len(raw):], raw2)
+				var f1, f2 frame.Frame
+				var err1, err2 error
+				if e.Guard("panic", func() {
+					f1, err1 = b.ParseFrame(buf[:len(raw)], nil, 0)
+					f2, err2 = b.ParseFrame(buf[len(raw):2*len(raw)], nil, 0)
+				}) {
+					e.Fail("", "")
+				}
+				if err1 != nil || err2 != nil {
+					fail("valid-frame-refused", "%s: %v / %v", how, err1, err2)
+				}
+				if e.Guard("panic", func() { f1.ReturnToPool() }) {
+					e.Fail("", "")
+				}
+				if !bytes.Equal(buf[len(raw):2*len(raw)], raw2) {
+					fail("live-frame-content-changed", "%s: releasing the first frame changed the bytes of the second frame in the caller's buffer", how)
+				}
+				if f2.SrcIP() != netip.AddrFrom16([16]byte(raw2[16:32])) || !bytes.Equal(f2.MessageData(), raw2[51+sb:51+sb+msg]) {
+					fail("live-frame-content-changed", "%s: after the first frame was released the second one reports other addresses or another message", how)
+				}
+				if e.Guard("panic", func() { f2.ReturnToPool() }) {
+					e.Fail("", "")
+				}
+				var got [][]byte
+				for k := 0; k < 6; k++ {
+					ps := b.GetPooledSlice(size)
+					if ps == nil {
+						break
+					}
+					got = append(got, ps)
+					if &ps[:1][0] == &buf[:1][0] {
+						fail("callers-buffer-handed-out-by-the-pool", "%s: after both frames were released the pool hands out the caller's own buffer (%d bytes) for a new frame", how, size)
+					}
+				}
+				for _, ps := range got {
+					b.ReturnPooledSlice(ps)
+				}
+				e.Probe("two_frames_in_one_plain_buffer")
+				verifyAll(how)
+				continue
+			}
 			total := 12 + len(raw) + 16
 			ps := b.GetPooledSlice(total)
 			if ps == nil {
